@@ -40,6 +40,17 @@ def c13_extra(ctx):
             code, rep, err = proc.run_solstat(binary, d, [])
             reports.append((code, rep))
             out["evaluations"] += 1
+        # the same files under differently NAMED sub-directories (directory names are not part of any finding; they only
+        # change where the sub-directory falls in the listing, i.e. the order in which files are discovered)
+        for k, name in enumerate(["aaa", "zzz", "m", "_x", "Sub9", "0first", "~last"]):
+            rnd = random.Random(ctx["seed"] * 1000 + 500 + k)
+            d = os.path.join(root, f"named{k}")
+            proc.make_fixture(os.path.join(d, "contracts"), rnd)
+            os.rename(os.path.join(d, "contracts", "sub"), os.path.join(d, "contracts", name))
+            code, rep, err = proc.run_solstat(binary, d, [])
+            reports.append((code, rep))
+            out["evaluations"] += 1
+        runs = len(reports)
         distinct = {hashlib.sha1(r[1] or b"").hexdigest() for r in reports}
         out["coverage"]["binary_runs"] = runs
         out["coverage"]["binary_distinct_reports"] = len(distinct)
